@@ -299,7 +299,7 @@ theorem rep_drain (f : Nat) (s : State) (q : List Hash) (e : Bool) (hr : Rep s) 
       exact ih _ _ _ this
 
 theorem rep_addOrphan (s : State) (b : BlockAbs) (hr : Rep s) : Rep (addOrphan s b) := by
-  unfold addOrphan Rep at *
+  unfold addOrphan addOrphanB Rep at *
   simp only []
   split
   · split <;> exact hr
